@@ -1,7 +1,7 @@
 /-
   Well-formed scripts (`WF`) and the projection theorem for them: whatever well-formed script is rendered, deleting
-  the inserted text leaves a complete JSON value whose tokens (commas ignored) are those of a value `ValSim`-equal
-  to the first node, deleting the removed text one `ValSim`-equal to the second node.
+  the inserted text leaves a complete JSON value whose tokens (commas ignored) are those of a value `ValPerm`-equal
+  to the first node, deleting the removed text one `ValPerm`-equal to the second node.
 -/
 import GtModel.Proofs.RenderSeq
 
@@ -24,23 +24,23 @@ def KeyOK (fk tk : Str) (ke : Script) : Prop :=
 /-- an edit printed behind the `has_non_zero_cost()` gate: with cost 0 the node's own formatter prints the FROM node
     (compound edits still show their sub-edits), so it must be equal to the to node -/
 def Gate (x y : Item) (s : Script) : Prop :=
-  s.kind ≠ .remove ∧ s.kind ≠ .insert ∧ (s.cost = 0 → isCompound s.kind = true ∨ ValSim x.val y.val)
+  s.kind ≠ .remove ∧ s.kind ≠ .insert ∧ (s.cost = 0 → isCompound s.kind = true ∨ ValPerm x.val y.val)
 
 /-- the sub-edits of a sequence edit keep every child of either container (element-wise in order for lists,
     up to a permutation for mappings) -/
 def Cover (x y : Item) (subs : List Script) : Prop :=
   ∃ o c, x.brackets = some (o, c) ∧ y.brackets = some (o, c) ∧
     (if o = 91 then
-      ValSimL ((sideItems true x.children y.children subs).map Item.val) (x.children.map Item.val) ∧
-      ValSimL ((sideItems false x.children y.children subs).map Item.val) (y.children.map Item.val)
+      ValPermL ((sideItems true x.children y.children subs).map Item.val) (x.children.map Item.val) ∧
+      ValPermL ((sideItems false x.children y.children subs).map Item.val) (y.children.map Item.val)
     else
-      ValSimP ((sideItems true x.children y.children subs).map Item.val) (x.children.map Item.val) ∧
-      ValSimP ((sideItems false x.children y.children subs).map Item.val) (y.children.map Item.val))
+      ValPermP ((sideItems true x.children y.children subs).map Item.val) (x.children.map Item.val) ∧
+      ValPermP ((sideItems false x.children y.children subs).map Item.val) (y.children.map Item.val))
 
 mutual
 /-- the script `s` is a well-formed edit of the node `x` into the node `y` -/
 def WF : Item → Item → Script → Prop
-  | x, y, .mk .match_ _ _ c _ => c > 0 ∨ ValSim y.val x.val
+  | x, y, .mk .match_ _ _ c _ => c > 0 ∨ ValPerm y.val x.val
   | _, _, .mk .replace _ _ c _ => c > 0
   | _, _, .mk .remove _ _ _ _ => True
   | x, y, .mk .insert _ _ _ _ => x = y
@@ -82,7 +82,7 @@ theorem scriptInd {P : Script → Prop}
 /-! ### what the projection of a rendered edit must satisfy -/
 
 /-- a complete JSON value whose tokens are those of a value equal (up to member order) to the node of that side -/
-def ValueSpec (z : Item) (V : Str) : Prop := ClosedT V ∧ ∃ v', ValSim v' z.val ∧ T V = v'.toks
+def ValueSpec (z : Item) (V : Str) : Prop := ClosedT V ∧ ∃ v', ValPerm v' z.val ∧ T V = v'.toks
 
 def EditSpec (side : Bool) (x y : Item) (s : Script) : Prop :=
   if absent side s.kind then proj (keepS side) (renderEdit true x y s) = []
@@ -91,7 +91,7 @@ def EditSpec (side : Bool) (x y : Item) (s : Script) : Prop :=
 theorem valueSpec_text (z : Item) (hz : z.litOK = true) : ValueSpec z z.text :=
   ⟨closedT_text z hz, z.val, .refl _, T_text z hz⟩
 
-theorem valueSpec_text_sim (z w : Item) (hw : w.litOK = true) (h : ValSim w.val z.val) : ValueSpec z w.text :=
+theorem valueSpec_text_sim (z w : Item) (hw : w.litOK = true) (h : ValPerm w.val z.val) : ValueSpec z w.text :=
   ⟨closedT_text w hw, w.val, h, T_text w hw⟩
 
 theorem keepS_plain (side : Bool) : keepS side .plain = true := by cases side <;> rfl
@@ -234,15 +234,15 @@ theorem seq_case (side : Bool) (x y : Item) (hx : x.litOK = true) (hy : y.litOK 
   rw [hval]
   rcases brackets_cases x o c hbx with ⟨rfl, rfl⟩ | ⟨rfl, rfl⟩
   · simp only [if_true] at hcover
-    apply ValSim.list
+    apply ValPerm.list
     cases side
-    · exact ValSimL.trans' hvs hcover.2
-    · exact ValSimL.trans' hvs hcover.1
+    · exact ValPermL.trans' hvs hcover.2
+    · exact ValPermL.trans' hvs hcover.1
   · simp only [show (123 : Nat) ≠ 91 by decide, if_false] at hcover
-    apply ValSim.map
+    apply ValPerm.map
     cases side
-    · exact ValSimP.trans (ValSimP.ofL hvs) hcover.2
-    · exact ValSimP.trans (ValSimP.ofL hvs) hcover.1
+    · exact ValPermP.trans (ValPermP.ofL hvs) hcover.2
+    · exact ValPermP.trans (ValPermP.ofL hvs) hcover.1
 
 theorem main : ∀ s, Main s := by
   apply scriptInd
@@ -259,7 +259,7 @@ theorem main : ∀ s, Main s := by
       · exact valueSpec_text y hy
       · exact valueSpec_text x hx
     · simp only [hc, if_false, proj_plain, keepS_plain, if_true]
-      have hsim : ValSim y.val x.val := by
+      have hsim : ValPerm y.val x.val := by
         simp only [WF] at hwf
         rcases hwf with h | h
         · exact absurd h hc
@@ -315,8 +315,8 @@ theorem main : ∀ s, Main s := by
       generalize proj (keepS side) (renderEdit (decide (ve.cost > 0)) (.tree fv) (.tree tv) ve) = V at hcl hT
       refine ⟨by simpa using closedT_kv _ V hcl, .pair (if side then fk else tk) v', ?_, ?_⟩
       · cases side
-        · simpa [sideItem, Item.val] using ValSim.pair (k := tk) hv'
-        · simpa [sideItem, Item.val] using ValSim.pair (k := fk) hv'
+        · simpa [sideItem, Item.val] using ValPerm.pair (k := tk) hv'
+        · simpa [sideItem, Item.val] using ValPerm.pair (k := fk) hv'
       · have := T_kv (if side then fk else tk) V
         simp only [List.singleton_append] at this ⊢
         rw [this, hT, Val.toks]
